@@ -18,6 +18,7 @@ pub const FLAT_STRUCTS: &[(&str, &str)] = &[
     ("HashTable", "engine_core/src/engine/table.rs"),
     ("MagicConfiguration", "board/src/board/precalculated/magic.rs"),
     ("Color", "core/src/constants/color.rs"),
+    ("SimpleHeuristic", "engine_core/src/engine/heuristic/simple.rs"),
 ];
 
 /// types whose values are only passed around: Lean type variables
@@ -47,6 +48,19 @@ pub const TABLE_GLOBALS: &[(&str, &str)] = &[
     ("KNIGHT_NONMAGICS", "Nonmagics"), ("KING_NONMAGICS", "Nonmagics"),
     ("WHITE_PAWN_NONMAGICS", "Nonmagics"), ("BLACK_PAWN_NONMAGICS", "Nonmagics"),
 ];
+
+/// fixed Lean text at the start of a generated module (helper definitions used by the mapping table): (module, text)
+pub const MODULE_PREAMBLE: &[(&str, &str)] = &[("UciText", UCI_TEXT_PREAMBLE)];
+
+const UCI_TEXT_PREAMBLE: &str = r#"/-- Unicode `White_Space` (what `str::trim` removes; `char::is_whitespace`) -/
+def isWhiteSpace (c : Char) : Bool :=
+  let n := c.toNat
+  (0x9 ≤ n && n ≤ 0xD) || n == 0x20 || n == 0x85 || n == 0xA0 || n == 0x1680 || (0x2000 ≤ n && n ≤ 0x200A)
+    || n == 0x2028 || n == 0x2029 || n == 0x202F || n == 0x205F || n == 0x3000
+
+/-- `str::trim` on the list of chars -/
+def strTrim (s : List Char) : List Char :=
+  ((s.dropWhile isWhiteSpace).reverse.dropWhile isWhiteSpace).reverse"#;
 
 /// Lean type of the lookup function of a table type (bit-manipulating functions only: `u64` = `UInt64`)
 pub fn table_lean_type(name: &str) -> String {
@@ -84,6 +98,30 @@ const TABLES: &[Opaque] = &[
     Opaque { recv: "BLACK_PAWN_NONMAGICS", method: "get_attacks", ret: "u64" },
     Opaque { recv: "KING_NONMAGICS", method: "get_attacks", ret: "u64" },
 ];
+const UCI_TEXT_OPAQUE: &[Opaque] = &[
+    Opaque { recv: "Square", method: "from_index", ret: "Option<Square>" },
+    Opaque { recv: "Square", method: "fen", ret: "str" },
+    Opaque { recv: "Piece", method: "from_index", ret: "Option<Piece>" },
+    Opaque { recv: "Piece", method: "fen", ret: "char" },
+];
+const UCI_TEXT: What = What::Fn { opaque: UCI_TEXT_OPAQUE, vec_list: true, bits: true };
+const FIND_UCI_OPAQUE: &[Opaque] = &[
+    Opaque { recv: "ROOK_MAGICS", method: "get_attacks", ret: "u64" },
+    Opaque { recv: "BISHOP_MAGICS", method: "get_attacks", ret: "u64" },
+    Opaque { recv: "KNIGHT_NONMAGICS", method: "get_attacks", ret: "u64" },
+    Opaque { recv: "WHITE_PAWN_NONMAGICS", method: "get_attacks", ret: "u64" },
+    Opaque { recv: "BLACK_PAWN_NONMAGICS", method: "get_attacks", ret: "u64" },
+    Opaque { recv: "KING_NONMAGICS", method: "get_attacks", ret: "u64" },
+    Opaque { recv: "Square", method: "from_index", ret: "Option<Square>" },
+    Opaque { recv: "Square", method: "fen", ret: "str" },
+    Opaque { recv: "Piece", method: "from_index", ret: "Option<Piece>" },
+    Opaque { recv: "Piece", method: "fen", ret: "char" },
+];
+const FIND_UCI: What = What::Fn { opaque: FIND_UCI_OPAQUE, vec_list: true, bits: true };
+const SIMPLE_TABLES: What = What::Fn {
+    opaque: &[Opaque { recv: "WHITE_TABLES", method: "", ret: "[[[i32; 64]; 6]; 3]" }, Opaque { recv: "BLACK_TABLES", method: "", ret: "[[[i32; 64]; 6]; 3]" }],
+    vec_list: true, bits: true,
+};
 const CHECK: What = What::Fn { opaque: TABLES, vec_list: true, bits: true };
 const ZOBRIST: &[Opaque] = &[
     Opaque { recv: "Zobrist", method: "BLACK_TO_MOVE_HASH", ret: "u64" },
@@ -332,4 +370,27 @@ pub const TARGETS: &[Target] = &[
             vec_list: true, bits: true,
         },
     },
+    // ---- UCI text of a move, `find_uci` / `make_uci` / `make_all_uci` (C13)
+    Target {
+        module: "UciText", file: BOARD_LIB, container: Free, name: "piece_to_string",
+        what: What::Fn { opaque: &[Opaque { recv: "Piece", method: "from_index", ret: "Option<Piece>" }, Opaque { recv: "Piece", method: "fen", ret: "char" }], vec_list: true, bits: true },
+    },
+    Target { module: "UciText", file: BOARD, container: Impl("Move"), name: "to_uci_string", what: UCI_TEXT },
+    Target { module: "FindUci", file: BOARD, container: Free, name: "MoveFromUciError", what: What::Enum },
+    Target { module: "FindUci", file: BOARD, container: Impl("Bitboard"), name: "find_uci", what: FIND_UCI },
+    Target { module: "FindUci", file: BOARD, container: Impl("Bitboard"), name: "make_uci", what: FIND_UCI },
+    // ---- `SimpleHeuristic`: material, game stage, piece-square sums, `evaluate_ongoing` (C11); the piece-square tables are opaque values
+    Target { module: "Simple", file: SIMPLE, container: Free, name: "QUEEN_VALUE", what: What::Const },
+    Target { module: "Simple", file: SIMPLE, container: Free, name: "ROOK_VALUE", what: What::Const },
+    Target { module: "Simple", file: SIMPLE, container: Free, name: "BISHOP_VALUE", what: What::Const },
+    Target { module: "Simple", file: SIMPLE, container: Free, name: "KNIGHT_VALUE", what: What::Const },
+    Target { module: "Simple", file: SIMPLE, container: Free, name: "PAWN_VALUE", what: What::Const },
+    Target { module: "Simple", file: BOARD_CONSTS, container: Free, name: "MID", what: What::Const },
+    Target { module: "Simple", file: BOARD_CONSTS, container: Free, name: "LATE", what: What::Const },
+    Target { module: "Simple", file: SIMPLE, container: Impl("SimpleHeuristic"), name: "piece_value", what: BITS },
+    Target { module: "Simple", file: SIMPLE, container: Impl("SimpleHeuristic"), name: "game_stage", what: BITS },
+    Target { module: "Simple", file: SIMPLE, container: Impl("SimpleHeuristic"), name: "piece_square_sum", what: BITS },
+    Target { module: "Simple", file: SIMPLE, container: Impl("SimpleHeuristic"), name: "piece_square_sum_for_player", what: BITS },
+    Target { module: "Simple", file: SIMPLE, container: Impl("SimpleHeuristic"), name: "piece_square_value", what: SIMPLE_TABLES },
+    Target { module: "Simple", file: SIMPLE, container: ImplTrait("Heuristic", "SimpleHeuristic"), name: "evaluate_ongoing", what: BITS },
 ];
